@@ -92,6 +92,14 @@ func tx(s int, ts ...int64) hop {
 	return hop{Kind: "tx", S: ss, T: ts}
 }
 
+func manyTx(s, n int, step int64) hop {
+	var ts []int64
+	for i := 0; i < n; i++ {
+		ts = append(ts, int64(i)*step)
+	}
+	return tx(s, ts...)
+}
+
 type runner struct {
 	d   *tsdbx.DB
 	log []string
@@ -199,6 +207,17 @@ func genHistory(g *gen.Rand) history {
 				h.Ops = append(h.Ops, o)
 			}
 		case k < 16:
+			if g.Chance(1, 4) {
+				// more than 120 samples of one series: the read-only head cuts a chunk while replaying
+				o := hop{Kind: "tx"}
+				s := g.Intn(h.N)
+				for j := 0; j < 125; j++ {
+					cur += g.Range(1, 3)
+					o.S, o.T = append(o.S, s), append(o.T, cur)
+				}
+				h.Ops = append(h.Ops, o)
+				break
+			}
 			cur += g.Range(200, 1600)
 			h.Ops = append(h.Ops, tx(g.Intn(h.N), cur))
 		case k < 17:
@@ -255,6 +274,9 @@ func corpus() []fixed {
 		{Name: "selected-series-block", H: history{N: 2, Window: 0, Ops: []hop{tx(0, 100), tx(1, 120), tx(0, 200), tx(1, 220), {Kind: "selected", S: []int{0}}, tx(1, 300)}}},
 		// negative times, unclean, out-of-order and in-order blocks overlapping
 		{Name: "overlap-negative", H: history{N: 2, Window: 2500, Unclean: true, Ops: []hop{tx(0, -2600), tx(1, -2000), tx(0, -900), tx(0, 300), tx(1, 900), {Kind: "compact"}, tx(1, -500), tx(0, -1200), {Kind: "compactooo"}, tx(0, 1300)}}},
+		// 130 samples of one series only in the WAL: the read-only head (120 samples per chunk) cuts and
+		// m-maps a chunk while replaying - into the sandbox
+		{Name: "replay-cuts-chunk", H: history{N: 1, Window: 0, Unclean: true, Ops: []hop{manyTx(0, 130, 10), {Kind: "reopen"}, tx(0, 5000)}}},
 		// empty directory
 		{Name: "empty", H: history{N: 1, Window: 0}},
 	}
@@ -1012,11 +1034,18 @@ func runCase(id int, name string, h history, fq []query, g *gen.Rand, outDir str
 	if err := ro.Close(); err != nil {
 		panic(err)
 	}
-	if !sameEntries(flBefore, in2.snapshot(flRoot)) {
-		meta.Hit("observation:flushwal-changed-data-dir")
-	}
 	gFlush := "None"
 	fdesc := desc
+	if flAfter := in2.snapshot(flRoot); !sameEntries(flBefore, flAfter) {
+		meta.Hit("observation:flushwal-changed-data-dir")
+		added, gone := diff(flBefore, flAfter)
+		for _, e := range added {
+			fdesc.Notes = append(fdesc.Notes, "FlushWAL left new/changed "+e.Rel)
+		}
+		for _, e := range gone {
+			fdesc.Notes = append(fdesc.Notes, "FlushWAL removed/changed "+e.Rel)
+		}
+	}
 	fdesc.Part = "flush"
 	fdesc.Queries = nil
 	fdesc.Shape = "clean"
@@ -1133,7 +1162,7 @@ func main() {
 	for _, c := range corpus() {
 		run(c.Name, c.H, c.Q, gen.Fork(f.Seed, id))
 	}
-	n := f.Count(11, 240)
+	n := f.Count(9, 240)
 	for i := 0; i < n; i++ {
 		g := gen.Fork(f.Seed, id)
 		run("random", genHistory(g), nil, g)
